@@ -36,6 +36,8 @@ if [ $rc -ne 0 ]; then
 fi
 rm -f "$LOG"
 BIN="$HERE/harness/target/verif/gdv"
+# the command-line tool C19 drives: the one this script built from /repo, wherever this copy of /verif lives
+export GDV_CLI="$HERE/harness/target/cli/debug/gamedig_cli"
 case "$MODE" in
   quick|thorough)
     "$BIN" "$ID" --tier "$MODE" --seed "$SEED" --verif-dir "$HERE"
